@@ -263,18 +263,26 @@ def run_layout(R, tonic):
         ok_item = term_contains(item_src, lambda x: x and x[0] == 'variant' and x[2] == 'Ok') and term_contains(item_src, lambda x: is_call(x, name='poll_next'))
         R.check(ok_item, 'C01.R5', 'R5c:item-is-the-polled-item', site(pn, eb), 'encode_item item = %s' % show(item_src)[:120])
         sp_b, sp_t = pn.call1(pat='Stream::poll_next')
-        arm = [x for x in sorted(pn.live_blocks()) if any(s_ == sw_ and vals == [0] for s_, vals, tm in pn.edge_guards(x) for sw_ in [s_] if show(tm).startswith('discr(') and 'as Some' in show(tm) and 'poll_next' in show(tm))]
-        # blocks on the Ok(item) arm: guarded by discr(Ready.0 Some.0) == Ok(0)
+        # blocks where the Ok(item) payload of the polled value is moved out: from there every path to a return or to the next
+        # poll of the source passes encode_item
         rets = set(pn.return_blocks())
-        arm_entry = [x for x in arm if not any(p_ in arm for p_ in pn.preds(x))]
+        taken = []
+        for x in sorted(pn.live_blocks()):
+            for i_, st_ in enumerate(pn.blocks[x]['stmts']):
+                if 'rv' in st_ and 'use' in st_['rv']:
+                    pl_ = st_['rv']['use'].get('mv') or st_['rv']['use'].get('cp')
+                    if pl_ and any(isinstance(e_, dict) and e_.get('v') == 'Ok' for e_ in pl_.get('pr', [])):
+                        if term_contains(pn.origin(pl_), lambda y: is_call(y, name='poll_next')):
+                            taken.append(x)
+        taken = sorted(set(taken))
         dropped = []
-        for ent in arm_entry:
-            reach_wo = pn.reachable(ent, removed={eb})
-            if reach_wo & rets:
+        for ent in taken:
+            reach_wo = pn.reach_ps(ent, removed={eb})
+            if (reach_wo & rets) or (sp_b in reach_wo and sp_b != ent):
                 dropped.append(ent)
-        R.check(bool(arm_entry) and not dropped, 'C01.R5', 'R5c:no-item-dropped', site(pn, eb),
-                'every path from the Ok(item) arm (entries %r) to a return passes through encode_item: %r '
-                '(otherwise a message pulled from the source is lost, e.g. when the batch reaches the yield threshold)' % (arm_entry, not dropped))
+        R.check(bool(taken) and not dropped, 'C01.R5', 'R5c:no-item-dropped', site(pn, eb),
+                'every path from where the Ok(item) is taken (blocks %r) to a return or the next source poll passes through encode_item: %r '
+                '(otherwise a message pulled from the source is lost, e.g. when the batch reaches the yield threshold)' % (taken, not dropped))
         for kind in ('Pending', 'None'):
             for bb in writers_of(pn, 0):
                 for w in block_writes(pn, bb, 0):
